@@ -13,6 +13,7 @@ import (
 const modPrefix = "github.com/cenkalti/rain/v2/"
 
 type Clause struct {
+	Why   string
 	Label string
 	Props []string
 	Src   string
@@ -41,6 +42,7 @@ type FuncContract struct {
 	Name     string
 	ID       string
 	Requires []*Clause
+	Given    []*Clause // representation invariants assumed on entry, not demanded of callers (Why in Clause.Why)
 	Ensures  []*Clause
 	Loops    map[int]*LoopSpec
 	Sites    []*SiteSpec
@@ -119,7 +121,7 @@ type UFun struct {
 
 var clauseRe = regexp.MustCompile(`^([A-Za-z0-9_.]+):\s*(.*)$`)
 
-var keywords = map[string]bool{"func": true, "props": true, "safety": true, "requires": true, "ensures": true, "loop": true, "site": true, "inline": true, "trusted": true, "pred": true, "callers": true, "writers": true, "dyncall": true, "chan": true, "cover": true, "pure": true, "ufun": true, "preserves": true, "noauto": true, "package": true, "layout": true, "callsarg": true, "specfn": true, "lemma": true, "apply": true, "assume": true, "raincallers": true, "ghostset": true, "maycallarg": true, "model": true}
+var keywords = map[string]bool{"func": true, "props": true, "safety": true, "requires": true, "ensures": true, "loop": true, "site": true, "inline": true, "trusted": true, "pred": true, "callers": true, "writers": true, "dyncall": true, "chan": true, "cover": true, "pure": true, "ufun": true, "preserves": true, "noauto": true, "package": true, "layout": true, "callsarg": true, "specfn": true, "lemma": true, "apply": true, "assume": true, "raincallers": true, "ghostset": true, "maycallarg": true, "model": true, "given": true}
 
 func loadContracts(root string) (*Contracts, error) {
 	cs := &Contracts{Funcs: map[string]*FuncContract{}, Preds: map[string]*Pred{}, UFuns: map[string]*UFun{}, Lemmas: map[string]*Lemma{}}
@@ -253,6 +255,23 @@ func (cs *Contracts) parseFile(path, pkg string) error {
 			cur.TrustWhy = rest
 		case "preserves":
 			cur.Preserve = append(cur.Preserve, splitList(rest)...)
+		case "given":
+			// given label: expr because <why>: an invariant of the data structure the function
+			// works on, established elsewhere (constructor + writer whitelist); assumed on entry and
+			// reported as an assumption, never demanded at call sites
+			if cur == nil {
+				return fmt.Errorf("%s:%d: given outside func", path, d.line)
+			}
+			i := strings.LastIndex(rest, " because ")
+			if i < 0 {
+				return fmt.Errorf("%s:%d: given needs 'because <reason>'", path, d.line)
+			}
+			c, err := mkClause(rest[:i], d.line)
+			if err != nil {
+				return err
+			}
+			c.Why = strings.TrimSpace(rest[i+len(" because "):])
+			cur.Given = append(cur.Given, c)
 		case "requires", "ensures":
 			if cur == nil {
 				return fmt.Errorf("%s:%d: %s outside func", path, d.line, kw)
